@@ -55,38 +55,61 @@ def run(ck, prog):
                 inner |= ABS_REG[a].atoms()
         atoms |= inner
         extra = atoms - {"D", "DM", "N"}
-        if extra and extra <= {"npos", "nneg", "nneut"} and regime == "DM>0":
-            # a branch on the charge counts.  Whether (counts, DM) combinations are realisable is delta-max's business (C03), with one exception
-            # that needs no search: compositions that certainly have deltaMax() > 0 (lemma, DESIGN.md C01: one charge type, or a run of five
-            # like charges next to the other sign, plus five neutral / like residues give a blob whose sigma differs from the global one).  A row
-            # that answers -1 on the counts alone and contains such a composition answers -1 where delta-max is positive.
-            from lcsa.dt import feasible_with
+        if extra and extra <= {"npos", "nneg", "nneut"}:
+            # a branch on the charge counts.  Which (counts, delta-max) combinations are realisable is delta-max's business (C03), except where
+            # no search is needed (lemmas, DESIGN.md C01):
+            #   Z: every residue charged and all of one sign  =>  every blob has the global sigma  =>  deltaMax() == 0 (and delta() == 0);
+            #   P: one charge type plus five neutral residues, or five like charges plus one opposite  =>  deltaMax() > 0;
+            #   U: deltaMax() > 0  =>  at least one charged residue.
+            # Refutation: at a representative composition of Z (resp. P) every row that can fire in this regime must answer as the stated
+            # table does.  Proof: the tables agree on the whole abstract domain constrained by U.  Anything in between is undecided.
+            from lcsa.dt import feasible_with, compare_rows
             from lcsa.sym import fmt_conds
-            # representative compositions (n+, n-, n0) of the families of the lemma
-            families = {"only negative charges and at least five neutral residues": [(0, 1, 5), (0, 3, 6), (0, 10, 10)],
-                        "only positive charges and at least five neutral residues": [(1, 0, 5), (3, 0, 6), (10, 0, 10)],
-                        "five or more negative charges and a positive one": [(1, 5, 0), (2, 6, 3), (1, 9, 10)],
-                        "five or more positive charges and a negative one": [(5, 1, 0), (6, 2, 3), (9, 1, 10)]}
+            comp = [Lin({"npos": -1}, 0, "<="), Lin({"nneg": -1}, 0, "<="), Lin({"nneut": -1}, 0, "<="),
+                    Lin({"N": 1, "npos": -1, "nneg": -1, "nneut": -1}, 0, "<="), Lin({"N": -1, "npos": 1, "nneg": 1, "nneut": 1}, 0, "<=")]
+            if regime == "DM>0":
+                families = {"only negative charges and at least five neutral residues": [(0, 1, 5), (0, 3, 6), (0, 10, 10)],
+                            "only positive charges and at least five neutral residues": [(1, 0, 5), (3, 0, 6), (10, 0, 10)],
+                            "five or more negative charges and a positive one": [(1, 5, 0), (2, 6, 3), (1, 9, 10)],
+                            "five or more positive charges and a negative one": [(5, 1, 0), (6, 2, 3), (9, 1, 10)]}
+                lemma_dom = dom + comp + [Lin({"npos": -1, "nneg": -1}, 1, "<="), Lin({"N": -1}, 6, "<=")]
+            else:
+                families = {"every residue positively charged (deltaMax() is 0 for such a sequence)": [(3, 0, 0), (10, 0, 0), (1, 0, 0)],
+                            "every residue negatively charged (deltaMax() is 0 for such a sequence)": [(0, 3, 0), (0, 10, 0), (0, 1, 0)]}
+                lemma_dom = dom + comp + [Lin({"N": -1}, 1, "<="), Lin({"D": 1}, 0, "<=")]
             hit = False
             for conds, out in code:
-                if hit or not (isinstance(out, Rat) and out.is_const() and out.const_value() < 0):
-                    continue
+                if hit:
+                    break
+                sentinel = isinstance(out, Rat) and out.is_const() and out.const_value() == -1
+                if sentinel == (regime == "DM=0"):
+                    continue                      # this row answers as the stated table does in this regime
                 for fam, reps in families.items():
                     for (a_, b_, c_) in reps:
                         fix = [Lin({"npos": 1}, -a_, "=="), Lin({"nneg": 1}, -b_, "=="), Lin({"nneut": 1}, -c_, "=="), Lin({"N": 1}, -(a_ + b_ + c_), "==")]
-                        # the row holds at this composition whatever delta() and deltaMax() > 0 are: its negation has no solution there
+                        if regime == "DM=0":
+                            fix = fix + [Lin({"D": 1}, 0, "==")]
                         inside = feasible_with(conds, dom + fix, set(pos)) is not None
+                        # the row fires at this composition whatever delta() (and deltaMax() > 0) are: its negation has no solution there
                         outside = feasible_with([("not", ("and", list(conds)))] if conds else [False], dom + fix, set(pos))
                         if inside and outside is None:
                             hit = True
-                            ck.ob("DT", construct, False, expected="-1 only when deltaMax() == 0",
-                                  found={"returns": repr(out), "when": fmt_conds(conds), "e.g. (n+, n-, n0)": [a_, b_, c_], "family": fam},
-                                  slot="sentinel-on-counts", where=f.loc(), note="sequences with %s have deltaMax() > 0: kappa is defined for them" % fam)
+                            ck.ob("DT", construct, False, expected="-1 exactly when deltaMax() == 0",
+                                  found={"answers": repr(out), "when": fmt_conds(conds), "e.g. (n+, n-, n0)": [a_, b_, c_], "family": fam},
+                                  slot="sentinel-on-counts[%s]" % regime, where=f.loc(),
+                                  note="sequences with %s" % fam + (" have deltaMax() > 0: kappa is defined for them" if regime == "DM>0" else ": kappa is undefined and must be reported as -1"))
                             break
                     if hit:
                         break
             if hit:
                 continue
+            mis = compare_rows(code, ref, domain=lemma_dom, positive=pos)
+            ck.shape(mis is None, "kappa: branches on %s besides delta(), deltaMax() and the length, and the table differs from the stated one somewhere lcsa cannot show to be realisable"
+                     % sorted(extra), f.loc())
+            ck.ob("DT", construct, True, expected="-1 iff deltaMax()==0; else delta()/deltaMax() with (1,1.1) -> 1.0", found="equivalent on every (counts, delta, delta-max) combination",
+                  slot="table[%s]" % regime, where=f.loc())
+            ck.count("kappa paths", len(code))
+            continue
         ck.shape(atoms <= {"D", "DM", "N"}, "kappa: branches on %s besides delta(), deltaMax() and the length" % sorted(atoms - {"D", "DM", "N"}), f.loc())
         if regime == "DM>0":
             dom = dom + [Lin({"N": -1}, 6, "<=")]
@@ -111,7 +134,7 @@ def run(ck, prog):
                     ck.ob("DT", construct, w is None, expected="no negative constant outcome when deltaMax()>0",
                           found=repr(out), slot="sentinel-only-when-undefined", where=f.loc())
     # ---- the public getter answers with the same table (whatever it does besides forwarding: a fast path in the wrapper is part of kappa)
-    decided_api = ck.attempt(_api_table, ck, prog)
+    decided_api = ck.attempt(_via_kappa_X, ck, prog) or ck.attempt(_api_table, ck, prog)
     # ---- the numerator / denominator are the receiver's own delta() and deltaMax()
     fk = prog.fn(SEQ, "Sequence.kappa")
     calls = [n for n in ast.walk(fk.node) if isinstance(n, ast.Call) and isinstance(n.func, ast.Attribute)
@@ -126,6 +149,36 @@ def run(ck, prog):
     # (a getter that is more than a forward and whose whole table was just compared needs no forwarding check)
     ck.attempt(check_api, ck, prog, ([] if decided_api else [("get_kappa", "kappa", None)]) + [("get_delta", "delta", None), ("get_deltaMax", "deltaMax", None)])
     ck.floor("kappa paths", ck.analysed.get("kappa paths", 0), 3)
+
+
+def _via_kappa_X(ck, prog):
+    """get_kappa routed through the two-group patterning routine: kappa_X(g1, g2) is kappa of the sequence recoded g1 -> negative,
+    g2 -> positive, rest -> neutral (C06), so it is kappa itself exactly when every residue keeps its own charge class under that recoding"""
+    from lcsa import bind, facts
+    from lcsa import tab
+    g = prog.fn("sequenceParameters.py", "SequenceParameters.get_kappa")
+    ff = bind.final_forward(prog, g)
+    if ff is None or ff[2].key != SEQ + ":Sequence.kappa_X":
+        return None
+    host, call, callee = ff
+    construct = g.mod.relpath + ":" + g.qual
+    _, b = bind.bind(prog, host, call, callee)
+    groups = []
+    for formal in ("grp1", "grp2"):
+        a = b.get(formal)
+        ck.shape(isinstance(a, (ast.List, ast.Tuple)) and all(isinstance(e, ast.Constant) and isinstance(e.value, str) for e in a.elts),
+                 "get_kappa: routed through kappa_X with groups that are not literal lists of letters (%s)" % formal, host.loc(call))
+        groups.append([e.value for e in a.elts])
+    from props import C06
+    r = C06.recoded(prog, "kappa_X", {"grp1": groups[0], "grp2": groups[1]})
+    ck.shape(r[0] == "ok", "get_kappa: kappa_X(%s, %s) does not reduce to kappa of a recoded sequence (%r)" % (groups[0], groups[1], r[:2]), host.loc(call))
+    cmap, _, _ = facts.charge_map(prog)
+    sgn = lambda q: (q > 0) - (q < 0)
+    moved = {L: r[1][L] for L in sorted(r[1]) if L in cmap and (r[1][L] not in cmap or sgn(cmap[r[1][L]]) != sgn(cmap[L]))}
+    ck.ob("DT", construct, not moved, expected="get_kappa() is kappa of the sequence itself: routed through kappa_X, every residue must keep its charge class",
+          found={"groups": groups, "residues whose charge class changes": moved} if moved else "charge classes preserved", slot="api-via-kappa_X", where=host.loc(call),
+          note="kappa_X recodes group 1 as negative, group 2 as positive and everything else as neutral before computing kappa")
+    return True
 
 
 def _api_table(ck, prog):
